@@ -215,6 +215,17 @@ func buildCorpus(caseFiles []string, repo string, tier string, rng *rand.Rand) (
 		d, l := gen.BuildJPEG(segs)
 		items = append(items, item{Name: "jpeg:extra-com", Fmt: "jpeg", Data: d, L: l, Well: true})
 	}
+	{ // JPEG: a frame header that declares zero lines (T.81 B.2.5: the number of lines is then given by a DNL
+		// segment after the first scan) - nothing in that says the scan must be searched for it (round 11)
+		for k, sofm := range []byte{0xC0, 0xC2} {
+			d, l := gen.BuildJPEG([]gen.JSeg{gen.SOI(), gen.JFIF(), gen.DQT(0), gen.SOF(sofm, 8, 0, 34, gen.StdComps(3, 0x22)), gen.DHT(0, 0),
+				gen.SOS(3, gen.EntropyBytes(120, 5)), gen.Seg(0xDC, []byte{0, 21}), gen.EOI()})
+			items = append(items, item{Name: fmt.Sprintf("jpeg:extra-dnl%d", k), Fmt: "jpeg", Data: d, L: l, Well: true})
+			if dd, ll, ok := bigTail(concrete.Case{Fmt: "jpeg"}, concrete.Built{Data: d, Layout: l}, 1<<20); ok {
+				items = append(items, item{Name: fmt.Sprintf("jpeg:extra-dnl%d+big", k), Fmt: "jpeg", Data: dd, Tail: 1 << 20, L: ll, Well: true})
+			}
+		}
+	}
 	{ // JPEG: a profile in 70 and in 200 chunks (more chunks than bits in a machine word), the frame
 		// header ahead of them, then 190 KiB of comments before the scan
 		for _, nch := range []int{64, 65, 70, 127, 128, 129, 200, 254, 255} {
